@@ -53,6 +53,9 @@ type escRec struct {
 	id   Term
 }
 
+// immutableCells: struct cells whose fields are only assigned while the object is fresh and unpublished.
+var immutableCells = map[string]bool{"cell:env_Env": true}
+
 type mapLenRec struct {
 	m, l Term
 	dom  *HeapV
@@ -148,6 +151,7 @@ type Tr struct {
 	valOKText string
 	noUserInv bool
 	noContracts bool
+	globalStoreGuard func(a *Act, st *State, g *ssa.Global) Term
 	prop      string
 	piTerm    Term
 	coverResult string
@@ -203,6 +207,9 @@ func (tr *Tr) comp(name string, keySorts []string, valSort string, value bool) *
 		return c
 	}
 	c := &Component{name: name, keySorts: keySorts, valSort: valSort, value: value}
+	if name == "ghost:sent" || name == "ghost:applied" {
+		c.local = true // counts the events of this activation only; callees cannot change it
+	}
 	tr.comps[name] = c
 	return c
 }
@@ -282,6 +289,9 @@ func (tr *Tr) heapOf(st *State, c *Component) *HeapV {
 		switch {
 		case strings.HasPrefix(c.name, "ghost:lock"):
 			h = prev // callees are lock-balanced (each is checked for lock/balance itself)
+		case immutableCells[c.name] && p.keepValue != nil:
+			// fields written only on fresh objects (lock/field-immutable, C11): existing objects keep theirs
+			h = tr.heapFrame(prev, p.keepValue, p.hint+"_"+c.name)
 		case c.local && !p.mods[c.name]:
 			h = prev
 		case !p.all && !p.mods[c.name]:
@@ -375,6 +385,7 @@ type Act struct {
 	visMode  string
 	curBlock *ssa.BasicBlock
 	guards   map[ssa.Value]*guardInfo
+	recvs    []recvRec
 	pendingExits   []pendingExit
 }
 
